@@ -692,6 +692,18 @@ def R3_loop(run):
             ok = ok and bool(some_blocks) and all(b_ in cfg.reach(sfn, at.true_targets[0], cut_blocks=[at.block]) and b_ not in cfg.reach(sfn, at.false_targets[0], cut_blocks=[at.block]) for b_ in some_blocks)
             steps = {callee_path(t).rsplit("::", 1)[-1] for _, t in sfn.calls() if "initializable_tick_index" in (callee_path(t) or "")}
             ok = ok and stepper in steps
+        # inclusiveness: the a_to_b (prev) search examines the start tick itself first - the program's a_to_b search is inclusive, an
+        # initialised tick at the current index must be crossed; the b_to_a (next) search steps before it looks
+        lookups = [bi for bi, t in sfn.calls() if (callee_path(t) or "").endswith(">::tick") and not sfn.blocks[bi]["c"]]
+        stepb = [bi for bi, t in sfn.calls() if (callee_path(t) or "").rsplit("::", 1)[-1] == stepper and not sfn.blocks[bi]["c"]]
+        if len(lookups) == 1 and len(stepb) == 1:
+            dom = cfg.dominates(sfn, stepb[0], lookups[0])
+            want_dom = name == "next_initialized_tick"
+            run.check("R3", "sequence-inclusive@" + name, dom == want_dom,
+                      "SDK %s %s before its first lookup; the program's %s search is %s of the start tick" % (name, "steps" if dom else "does not step", "b_to_a" if want_dom else "a_to_b", "exclusive" if want_dom else "inclusive"),
+                      loc=sfn.loc(), detail="first lookup %s the step" % ("after" if want_dom else "before"))
+        else:
+            run.missing("R3", "sequence-inclusive@" + name, "expected one tick lookup and one %s call, found %d / %d" % (stepper, len(lookups), len(stepb)), loc=sfn.loc())
         run.check("R3", "sequence@" + name, ok, "SDK %s must return Some(tick) only for an initialised tick and (None, %s()) when the search leaves the supplied arrays" % (name, edge), loc=sfn.loc(),
                   detail="initialized => (Some(tick), index); beyond the arrays => (None, %s)" % edge)
     g = K.need_fn(SW + "get_next_liquidity")
